@@ -475,3 +475,166 @@ def specialise_switch(b, pred, variant):
     nb = Body(raw, b.facts)
     nb.specialised = (variant, n)
     return nb
+
+
+def _reads_in(o, acc):
+    """locals read by a MIR operand / rvalue / terminator fragment (json)"""
+    if isinstance(o, dict):
+        if o.get("k") in ("copy", "move") and "pl" in o:
+            acc.append((o["pl"]["l"], tuple(_proj_key(p) for p in o["pl"]["p"])))
+            for p in o["pl"]["p"]:
+                if isinstance(p, dict) and "index" in p:
+                    acc.append((p["index"], ()))
+            return
+        if "rv" in o and o.get("rv") in ("ref", "addr", "len", "discr") and "pl" in o:
+            acc.append((o["pl"]["l"], tuple(_proj_key(p) for p in o["pl"]["p"])))
+        for k, v in o.items():
+            if k in ("span", "dest", "func"):
+                continue
+            _reads_in(v, acc)
+    elif isinstance(o, list):
+        for v in o:
+            _reads_in(v, acc)
+
+
+def _proj_key(p):
+    if p == "*":
+        return "*"
+    if "downcast" in p:
+        return "as:" + p["downcast"]
+    if "f" in p:
+        return "f:" + str(p["f"])
+    return "x"
+
+
+def dropped_fill_lengths(F, bodies=None):
+    """calls that fill a caller-provided `&mut [u8]` and report how many bytes they produced
+    (return type usize / Result<usize, _>) whose reported length is never read: the bytes past it
+    are then treated as data.  Returns [(body, site, callee)]."""
+    out = []
+    for b in (bodies if bodies is not None else F.user_bodies()):
+        for s, c, t in b.calls():
+            fty = t.get("func", {}).get("ty", "")
+            if "fn(" not in fty or t.get("target") is None:
+                continue
+            try:
+                ins, ret = _sig_split(fty)
+            except Exception:
+                continue
+            if not any(_erase(x).replace(" ", "") in ("&mut[u8]",) for x in ins):
+                continue
+            r = _erase(ret)
+            if not (r == "usize" or r.startswith("std::result::Result<usize,")):
+                continue
+            if not _ok_payload_read(b, s, t, r == "usize"):
+                out.append((b, s, callee_name(c) if c else "<indirect>"))
+    return out
+
+
+def _erase(ty):
+    import re
+    ty = ty.split("{")[0].strip()
+    return re.sub(r"'\w+ ?", "", ty)
+
+
+def _sig_split(sig):
+    i = sig.index("fn(") + 3
+    depth, j, parts, cur = 0, i, [], ""
+    while j < len(sig):
+        ch = sig[j]
+        if ch in "(<[":
+            depth += 1
+        elif ch in ")>]":
+            if depth == 0 and ch == ")":
+                break
+            if not (ch == ">" and sig[j - 1] == "-"):
+                depth -= 1
+        if ch == "," and depth == 0:
+            parts.append(cur.strip())
+            cur = ""
+        else:
+            cur += ch
+        j += 1
+    if cur.strip():
+        parts.append(cur.strip())
+    rest = sig[j + 1:]
+    out = rest.split("->", 1)[1].strip() if "->" in rest else "()"
+    return parts, out.split(" {")[0].strip()
+
+
+def _ok_payload_read(b, site, term, plain):
+    """is the usize produced by the call at `site` read anywhere (flow-insensitive, through moves, `?`
+    and explicit matches)?  A Result handed on whole (returned, passed to another function) counts as read."""
+    if term["dest"]["p"]:
+        return True
+    whole = {term["dest"]["l"]}      # locals holding the Result / ControlFlow whole
+    pay = set() if not plain else {term["dest"]["l"]}   # locals holding the usize
+    if plain:
+        whole = set()
+    changed = True
+    stmts = []
+    for bb in b.normal_blocks():
+        for st in b.blocks[bb]["stmts"]:
+            if st["s"] == "assign":
+                stmts.append(("assign", st["pl"], st["rv"]))
+        t = b.blocks[bb]["term"]
+        stmts.append(("term", None, t))
+    used = False
+    while changed:
+        changed = False
+        for kind, pl, x in stmts:
+            if kind == "assign":
+                rv = x
+                if rv["rv"] == "use" and rv["op"].get("k") in ("copy", "move"):
+                    src = rv["op"]["pl"]
+                    keys = [_proj_key(p) for p in src["p"]]
+                    tgt_whole = not pl["p"]
+                    if src["l"] in whole and not keys and tgt_whole and pl["l"] not in whole:
+                        whole.add(pl["l"]); changed = True
+                    elif src["l"] in whole and keys in (["as:Ok", "f:0"], ["as:Continue", "f:0"]) and tgt_whole and pl["l"] not in pay:
+                        pay.add(pl["l"]); changed = True
+                    elif src["l"] in pay and not keys and tgt_whole and pl["l"] not in pay and pl["l"] != 0:
+                        pay.add(pl["l"]); changed = True
+            else:
+                t = x
+                if t["t"] == "call" and t.get("func", {}).get("fn", {}).get("path", "").endswith("Try::branch"):
+                    a = t["args"][0]
+                    if a.get("k") in ("copy", "move") and a["pl"]["l"] in whole and not a["pl"]["p"] and not t["dest"]["p"] and t["dest"]["l"] not in whole:
+                        whole.add(t["dest"]["l"]); changed = True
+    # now: any read of a payload local other than the propagation moves above, or any escape of a whole local
+    for kind, pl, x in stmts:
+        acc = []
+        if kind == "assign":
+            rv = x
+            if rv["rv"] == "use" and rv["op"].get("k") in ("copy", "move"):
+                src = rv["op"]["pl"]
+                keys = [_proj_key(p) for p in src["p"]]
+                if src["l"] in pay and not keys:
+                    if pl["p"] or pl["l"] == 0 or pl["l"] not in pay:
+                        return True
+                    continue
+                if src["l"] in whole:
+                    if not keys and (pl["p"] or pl["l"] == 0):
+                        return True     # stored / returned whole
+                    continue
+            _reads_in(rv, acc)
+            if any(l in pay for l, k in acc):
+                return True
+            if pl["l"] in () :
+                pass
+        else:
+            t = x
+            if t["t"] == "call":
+                if t.get("func", {}).get("fn", {}).get("path", "").endswith("Try::branch"):
+                    continue
+                _reads_in(t["args"], acc)
+                if any(l in pay for l, k in acc) or any(l in whole and not k for l, k in acc):
+                    return True
+            elif t["t"] == "switch":
+                _reads_in(t["discr"], acc)
+                if any(l in pay for l, k in acc):
+                    return True
+            elif t["t"] == "return":
+                if 0 in whole or 0 in pay:
+                    return True
+    return False
